@@ -740,6 +740,9 @@ struct Isolator
       {}
     decode(buf, res);
     const std::string sanlog = san_prefix.empty() ? std::string() : san_prefix + "." + std::to_string(pid);
+    if (std::getenv("VERIF_C17_DEBUG"))
+      std::fprintf(stderr, "[c17] %s | %s -> complete=%d status=%d how=%s sig=%s\n--- child stderr:\n%s\n", entry.c_str(), stage.c_str(), int(res.complete), res.status,
+                   res.how.c_str(), clip(res.text, 200).c_str(), clip(errfd >= 0 ? slurp(errpath) : std::string(), 1500).c_str());
     if (res.complete && WIFEXITED(wstatus) && WEXITSTATUS(wstatus) == 0)
       {
         if (!sanlog.empty())
@@ -1618,9 +1621,9 @@ report_alloc(Result& r, const std::string& entry, const Input& in)
   if (r.refused_max > GiB)
     {
       r.viols.clear();
-      r.viol("unbounded-allocation:" + entry + ":" + (in.culprit.empty() ? std::string("several-keys") : keyify(in.culprit)),
+      r.viol("unbounded-allocation:" + (in.culprit.empty() ? std::string("no-single-key") : keyify(in.culprit)),
              "a single allocation of " + std::to_string(r.refused_max) + " bytes was requested while parsing an input of "
-                 + std::to_string(in.text.size()) + " bytes (mutation " + in.kinds + ")\n--- input:\n" + clip(in.text));
+                 + std::to_string(in.text.size()) + " bytes through " + entry + " (mutation " + in.kinds + ")\n--- input:\n" + clip(in.text, 3000));
     }
   else if (r.refused_max > 0)
     {
@@ -1989,8 +1992,23 @@ run_entry(Result& r, const Input& in, std::string& sig)
               const std::string t = obj->parameter_info();
               sig = t;
               r.status = 1;
-              // an accepted object must print a text that parses back to an object printing the same text
-              check_fixed_point(r, c, t, "object accepted from a mutated parameter text (mutation " + in.kinds + ")");
+              // printing and re-parsing the accepted object is executed under the sanitizers; the texts are only compared in
+              // "roundtrip" mode (objects reached from malformed text are outside the quantifier of the fixed-point clause)
+              std::istringstream s2(t);
+              std::unique_ptr<RegisteredObjectBase> obj2;
+              try
+                {
+                  obj2.reset(c.read(&s2, c.name));
+                }
+              catch (const std::exception&)
+                {}
+              if (obj2)
+                {
+                  const std::string t2 = obj2->parameter_info();
+                  r.count(t2 == t ? "accepted_objects_reprinted_identically" : "accepted_objects_reprinted_differently");
+                }
+              else
+                r.count("accepted_objects_own_text_rejected");
             }
         }
     }
@@ -2002,7 +2020,7 @@ run_entry(Result& r, const Input& in, std::string& sig)
   catch (const std::exception& e)
     {
       r.status = r.viols.empty() ? 0 : 2;
-      r.how = "exception";
+      r.how = std::string("exception: ") + clip(e.what(), 300);
     }
   catch (...)
     {
@@ -2017,13 +2035,21 @@ run_entry(Result& r, const Input& in, std::string& sig)
 // grammar-aware mutations
 // =====================================================================================================================
 namespace {
+struct MutationStep
+{
+  std::string text;    // text after this step
+  std::string kinds;   // kinds applied so far
+  std::string culprit; // normalised keyword of the line this step changed ("" if it is not a single line)
+};
 struct Mutated
 {
   std::string text;
   std::string kinds;
   std::string culprit;
+  std::string last_culprit;
   int n_culprits = 0;
   bool same = false;
+  std::vector<MutationStep> steps;
 };
 
 const std::vector<std::string>&
@@ -2161,6 +2187,7 @@ note_culprit(Mutated& m, const std::string& kw)
 {
   ++m.n_culprits;
   m.culprit = m.n_culprits == 1 ? kw : std::string();
+  m.last_culprit = kw;
 }
 
 // apply one mutation of the given kind; returns false if not applicable
@@ -2344,10 +2371,12 @@ mutate(const Seed& seed, vf::Rng& rng)
       m.kinds = "short-data";
       m.culprit = "name of data file";
       m.n_culprits = 1;
+      m.steps.push_back({ join_lines(lines), m.kinds, m.culprit });
       if (rng.coin(0.3))
         {
           apply_kind(m, lines, K_VALUE, seed, rng);
           m.kinds += "+value";
+          m.steps.push_back({ join_lines(lines), m.kinds, m.last_culprit });
         }
       m.text = join_lines(lines);
       return m;
@@ -2360,9 +2389,11 @@ mutate(const Seed& seed, vf::Rng& rng)
       for (int attempt = 0; attempt < 6; ++attempt)
         {
           const int k = kinds[rng.range(0, static_cast<long>(sizeof kinds / sizeof kinds[0]) - 1)];
+          m.last_culprit.clear();
           if (apply_kind(m, lines, k, seed, rng))
             {
               m.kinds += (m.kinds.empty() ? "" : "+") + std::string(KIND_NAMES[k]);
+              m.steps.push_back({ join_lines(lines).substr(0, 60000), m.kinds, m.last_culprit });
               break;
             }
         }
@@ -2385,12 +2416,44 @@ hex_hash(const std::string& s)
   return vf::fmt("%016llx", static_cast<unsigned long long>(vf::hash_str(s)));
 }
 
+// lines of the input that are not in the seed ('+') and lines of the seed that are not in the input ('-')
+std::string
+diff_vs_seed(const std::string& seed_text, const std::string& input_text)
+{
+  std::map<std::string, int> balance;
+  auto ls = split_lines(seed_text), li = split_lines(input_text);
+  for (auto& l : ls)
+    --balance[l];
+  for (auto& l : li)
+    ++balance[l];
+  std::string d;
+  int shown = 0;
+  for (size_t i = 0; i < li.size() && shown < 12; ++i)
+    if (balance[li[i]] > 0)
+      {
+        --balance[li[i]];
+        d += "+ line " + std::to_string(i + 1) + ": " + clip(li[i], 160) + "\n";
+        ++shown;
+      }
+  for (size_t i = 0; i < ls.size() && shown < 24; ++i)
+    if (balance[ls[i]] < 0)
+      {
+        ++balance[ls[i]];
+        d += "- seed line " + std::to_string(i + 1) + ": " + clip(ls[i], 160) + "\n";
+        ++shown;
+      }
+  if (li.size() != ls.size())
+    d += "(input has " + std::to_string(li.size()) + " lines, seed " + std::to_string(ls.size()) + ")\n";
+  return d.empty() ? std::string("(same lines as the seed, possibly in another order)\n") : d;
+}
+
 // copy the outcome of an isolated run into the case context
 void
-report(Ctx& ctx, const Result& r, const std::string& input_text, const std::string& what)
+report(Ctx& ctx, const Result& r, const std::string& input_text, const std::string& what, const Seed* seed = nullptr)
 {
   for (auto& v : r.viols)
-    ctx.violation(v.first, r.complete ? v.second : v.second + "\n--- input (" + what + ", " + std::to_string(input_text.size()) + " bytes):\n" + clip(input_text));
+    ctx.violation(v.first, (r.complete ? v.second : v.second + "\n--- input (" + what + ", " + std::to_string(input_text.size()) + " bytes):\n" + clip(input_text, 3000))
+                               + (seed ? "\n--- difference from the seed " + seed->name + ":\n" + diff_vs_seed(seed->text, input_text) : std::string()));
   for (auto& c : r.counts)
     ctx.count(c.first, c.second);
 }
@@ -2518,38 +2581,66 @@ run_mutate_case(Ctx& ctx)
   in.seed = &seed;
   in.text = m.text;
   in.kinds = m.kinds.empty() ? std::string("none") : m.kinds;
-  in.culprit = m.culprit;
+  in.culprit = m.steps.empty() ? m.culprit : m.steps.back().culprit;
   in.same_as_seed = m.same;
   in.cls = seed.cls;
   in.entry_variant = static_cast<int>(ctx.rng.range(0, num_entry_variants(seed.family) - 1));
   in.path = input_path(seed);
   const std::string entry = entry_name(seed.family, in.entry_variant);
   ctx.desc.add("mode", "mutate").add("family", seed.family).add("seed", seed.name).add("entry", entry).add("mutation", in.kinds);
-  ctx.desc.add("changed_key", in.culprit).add("input_bytes", static_cast<long>(in.text.size())).add("input_hash", hex_hash(in.text));
+  ctx.desc.add("changed_key", m.culprit).add("input_bytes", static_cast<long>(in.text.size())).add("input_hash", hex_hash(in.text));
   std::pair<int, std::string> ref(0, std::string());
   if (in.same_as_seed)
     ref = seed_signature(ctx, seed, in.entry_variant);
-  spit(in.path, in.text);
-  Result r = g_iso.run(ctx, entry, seed.name + " [" + in.kinds + "] through " + entry, [&](Result& rr) {
-    std::string sig;
-    run_entry(rr, in, sig);
-    rr.text = sig;
-  });
-  report_alloc(r, entry, in);
-  report(ctx, r, in.text, "mutation " + in.kinds + " of " + seed.name);
+  // (the first argument of run() only names violations that come without a stack: signals, hangs)
+  auto run_input = [&](const Input& inp) {
+    spit(inp.path, inp.text);
+    Result rr = g_iso.run(ctx, entry + ":" + (inp.culprit.empty() ? std::string("no-single-key") : keyify(inp.culprit)),
+                          seed.name + " [" + inp.kinds + "] through " + entry, [&](Result& r1) {
+                            std::string sig;
+                            run_entry(r1, inp, sig);
+                            r1.text = sig;
+                          });
+    report_alloc(rr, entry, inp);
+    return rr;
+  };
+  Result r = run_input(in);
+  if (!r.viols.empty() && m.steps.size() > 1)
+    {
+      // several mutations were applied one after the other: report the shortest prefix of them that is mis-handled
+      // (smaller witness; the keyword changed by its last step names violations that come without a stack)
+      for (size_t k = 0; k + 1 < m.steps.size(); ++k)
+        {
+          Input pin = in;
+          pin.text = m.steps[k].text;
+          pin.kinds = m.steps[k].kinds;
+          pin.culprit = m.steps[k].culprit;
+          Result pr = run_input(pin);
+          ctx.count("prefix_reruns_for_blame");
+          if (!pr.viols.empty())
+            {
+              in = pin;
+              r = pr;
+              ctx.desc.add("reported_prefix", in.kinds);
+              break;
+            }
+        }
+    }
+  report(ctx, r, in.text, "mutation " + in.kinds + " of " + seed.name, &seed);
   ctx.nontrivial = true;
   ctx.count("mutated_inputs");
   ctx.count("inputs_" + seed.family);
   ctx.count("entry_" + keyify(entry));
   {
     // per mutation kind
+    const std::string& kinds = m.kinds.empty() ? in.kinds : m.kinds;
     size_t b = 0;
-    while (b <= in.kinds.size())
+    while (b <= kinds.size())
       {
-        size_t e = in.kinds.find('+', b);
+        size_t e = kinds.find('+', b);
         if (e == std::string::npos)
-          e = in.kinds.size();
-        ctx.count("mutation_" + in.kinds.substr(b, e - b));
+          e = kinds.size();
+        ctx.count("mutation_" + kinds.substr(b, e - b));
         b = e + 1;
       }
   }
@@ -2567,10 +2658,10 @@ run_mutate_case(Ctx& ctx)
       if (r.status != 1)
         ctx.violation("keyword-respelling-rejected:" + entry + ":" + seed.family,
                       "the seed is accepted, the same text with keywords respelled (case, white space from {space,tab,_,!}) is not (" + r.how + ")\n--- input:\n"
-                          + clip(in.text));
+                          + clip(in.text, 3000));
       else if (r.text != ref.second)
         ctx.violation("keyword-respelling-changes-result:" + entry + ":" + seed.family,
-                      "seed gives " + clip(ref.second, 500) + "\nrespelled text gives " + clip(r.text, 500) + "\n--- input:\n" + clip(in.text));
+                      "seed gives " + clip(ref.second, 500) + "\nrespelled text gives " + clip(r.text, 500) + "\n--- input:\n" + clip(in.text, 3000));
     }
 }
 
@@ -2991,6 +3082,8 @@ keywords_testparser(Ctx& ctx)
               lines.push_back(kw_line("shape type", "", "Ellipsoid", rng));
               lines.push_back(kw_line("Ellipsoid Parameters", "", "", rng));
               lines.push_back(kw_line("radius-x (in mm)", "", "3", rng));
+              lines.push_back(kw_line("radius-y (in mm)", "", "4", rng));
+              lines.push_back(kw_line("radius-z (in mm)", "", "5", rng));
               lines.push_back(kw_line("End", "", "", rng));
               model.shape_name = "Ellipsoid";
             }
@@ -3059,13 +3152,10 @@ keywords_testparser(Ctx& ctx)
       rr.viol("keyparser-roundtrip-rejected:TestParser", "parameter_info() of the test parser is rejected when parsed again\n--- text:\n" + clip(t1));
     else
       {
-        const std::string st1 = q.state();
+        // (values are printed with 6 significant digits, so the state may differ; the statement is about the text)
         const std::string t2 = q.parameter_info();
         bool jitter = false;
-        if (st1 != rr.text)
-          rr.viol("keyparser-roundtrip-state-differs:TestParser:" + first_differing_field(rr.text, st1),
-                  "state after parse  : " + clip(rr.text, 700) + "\nstate after re-parse: " + clip(st1, 700) + "\n--- printed text:\n" + clip(t1));
-        else if (t1 != t2 && !text_diff(t1, t2, jitter).empty() && !jitter)
+        if (t1 != t2 && !text_diff(t1, t2, jitter).empty() && !jitter)
           rr.viol("keyparser-roundtrip-text-differs:TestParser", text_diff(t1, t2, jitter) + "\n--- first print:\n" + clip(t1));
       }
   });
@@ -3229,7 +3319,7 @@ keywords_headers(Ctx& ctx)
     rr.text = sig;
   });
   report_alloc(r, entry, in);
-  report(ctx, r, in.text, "equivalent spelling of " + seed.name);
+  report(ctx, r, in.text, "equivalent spelling of " + seed.name, &seed);
   ctx.count("equivalent_headers_parsed");
   if (!r.complete || !r.viols.empty() || ref.first != 1)
     {
